@@ -467,12 +467,36 @@ func emptyJSONValue(col *Collector) {
 	}
 }
 
+// gappedKeys: after an in-place partial update (MySQL 8.0 JSON_REMOVE / JSON_SET with binlog_row_value_options or a
+// document edited in place on the master) the keys of an object are where their key entries say, not necessarily back
+// to back behind the entry tables. No serialiser writes this layout, so the document is written out by hand here.
+func gappedKeys(col *Collector) {
+	// small object {"a":1,"c":3}: count 2, size 25; key entries (21,1) (24,1); values inlined INT16 1 and 3; three
+	// stale bytes before "a" and two between "a" and "c"
+	doc := []byte{0x00, 2, 0, 25, 0, 21, 0, 1, 0, 24, 0, 1, 0, 0x05, 1, 0, 0x05, 3, 0, 'x', 'y', 'z', 'a', 'b', 'b', 'c'}
+	want := "JSON_OBJECT('a',1,'c',3)"
+	got := catch(func() string {
+		t, err := replication.VerifPrintJSONData(exact(doc))
+		if err != nil {
+			return "err"
+		}
+		return string(t)
+	})
+	ok := got == want
+	note := ""
+	if !ok {
+		note = fmt.Sprintf("an object whose keys are not stored back to back (in-place partial update) decodes to %q, want %q", clip(got, 80), want)
+	}
+	col.AddScenario("json-gapped-keys", "json b="+hx(doc), true, ok, true, note, "json-gapped-keys", got, want)
+}
+
 func init() {
 	register(&Property{ID: "C14", Gen: genC14,
 		Extra: func(c *Collector, r *RNG, tier string) {
 			specVectors(c, "jdoc ")
 			retainedJSON(c, r, tier)
 			emptyJSONValue(c)
+			gappedKeys(c)
 		},
 		Replay: func(line string) []Case {
 			f := fields(line)
